@@ -258,6 +258,7 @@ def check(prop: str, tier: str, seed: int) -> int:
     run = Run(prop, tier, seed, "model_checking")
     quick = tier == "quick"
     rnd = random.Random(seed)
+    rnd2 = random.Random(seed + 77)         # a stream of its own: the older random jobs keep their contents
     run.cov["rule"] = ("pairs of inverter objects (same / different family, platform, transport) on two simulated inverters with different "
                        "register contents; two call sequences of length <= 3 (quick) / <= 4 (thorough) drawn from read_runtime_data, "
                        "read_setting / write_setting of several kinds incl. eco-mode groups, set_operation_mode, get_operation_mode; ALL shuffles "
@@ -281,6 +282,13 @@ def check(prop: str, tier: str, seed: int) -> int:
                 sh = rnd.sample(sh, 8)
             jobs.append({"pair": [a, b], "s1": s1, "s2": s2, "priors": [pa, pb], "shuffles": sh,
                          "inv": [obj_spec(a, rnd, pa), obj_spec(b, rnd, pb)]})
+            # one job in four: one of the two inverters (older firmware) refuses some single setting registers
+            if rnd2.random() < 0.25:
+                who = rnd2.randrange(2)
+                fam_ = OBJECTS[(a, b)[who]][0]
+                ref = {"ET": [[47510, 47510], [47589, 47600], [45356, 45356]], "DT": [[40326, 40326], [40328, 40329], [40336, 40336]]}.get(fam_)
+                if ref:
+                    jobs[-1]["inv"][who]["sim"]["refused"] = rnd2.sample(ref, rnd2.randint(1, len(ref)))
     # directed jobs: short sequences around the eco-mode groups with every combination of prior group contents, all shuffles
     rd = {"api": "read_setting", "args": ["eco_mode_1"]}
     dseqs = [[rd], [{"api": "set_operation_mode", "args": [{"opmode": 98}, 40, 60]}], [rd, {"api": "get_operation_mode"}],
@@ -315,6 +323,24 @@ def check(prop: str, tier: str, seed: int) -> int:
                 jobs.append({"pair": [a, b], "s1": s1, "s2": s2, "priors": ["zeros", "zeros"],
                              "shuffles": dshuffles(len(s1) + 1, len(s2) + 1, quick, rnd),
                              "inv": [obj_spec(a, rnd, "zeros", fa), obj_spec(b, rnd, "zeros", fb)]})
+    # directed: inverters of different firmware - one refuses (ILLEGAL DATA ADDRESS) single registers the reading calls ask for,
+    # the other serves them; what one object learns about ITS inverter's registers must not show in the other (both orders,
+    # the refused call once and twice, every shuffle)
+    REFUSABLE = {"ET": [("grid_export_limit", [[47510, 47510]]), ("peak_shaving_mode", [[47589, 47600]]),
+                        ("battery_discharge_depth", [[45356, 45356]])],
+                 "DT": [("shadow_scan_pv1", [[40326, 40326]]), ("grid_export_limit", [[40328, 40329], [40336, 40336]])]}
+    for a, b in [("et205", "et745"), ("et745", "et745"), ("et745tcp", "et205tcp"), ("dt3", "dt1"), ("dt1", "dt3_f7"), ("et205", "dt3")]:
+        for sid, ranges in REFUSABLE[OBJECTS[a][0]]:
+            if not any(c.get("args", [None])[0] == sid for c in alphabet(b) if c["api"] == "read_setting"):
+                continue
+            x = {"api": "read_setting", "args": [sid]}
+            for s1, s2 in (([x], [x]), ([x, x], [x]), ([x], [x, x])):
+                for who in (0, 1):
+                    inv = [obj_spec(a, rnd, "zeros", "random"), obj_spec(b, rnd, "zeros", "random")]
+                    inv[who]["sim"]["refused"] = REFUSABLE[OBJECTS[(a, b)[who]][0]][[k for k, _ in REFUSABLE[OBJECTS[(a, b)[who]][0]]].index(sid)][1]
+                    jobs.append({"pair": [a, b], "s1": s1, "s2": s2, "priors": ["zeros", "zeros"],
+                                 "shuffles": shuffles(len(s1) + 1, len(s2) + 1) if not quick else dshuffles(len(s1) + 1, len(s2) + 1, quick, rnd),
+                                 "inv": inv})
     # directed: two objects of one family with different model tags (every tag class against every other, both orders):
     # what one object learns about its model must not show in the other
     for fam, tags, reps in (("ET", et_tags(tier), et_tags("quick")), ("DT", dt_tags(tier), dt_tags("quick"))):
